@@ -88,6 +88,10 @@ STATEMENTS = [
     'added_{n}(1, 2)',
     'Added_{n}().zm_{n}(1)',
     'import {b}',
+    'from {b} import *',
+    'from {a} import *',
+    'NAME_',
+    'Klass().method',
     'from {b} import VALUE as V_{n}',
     'V_{n}.method',
     'num_{n} = 1 + 2',
@@ -482,6 +486,10 @@ def gen_case(seed, tier, i):
         # a session on ONE self-contained file: nothing else is analysed in between
         k = [j for j, e in enumerate(editors) if e.standalone][0]
         editors, bufs, nbuf = [editors[k]], [dict(bufs[k], path=bufs[k]['path'] or 'alone.py')], 1
+    # some pathed buffers were saved earlier: the file exists on disk with the INITIAL text (its mtime
+    # never changes while the unsaved edits go on)
+    # (a pathed buffer is never given a DIFFERENT saved version on disk: project-wide searches of other Scripts
+    # would read the open buffer's unsaved tree where a fresh process reads the file - not comparable)
     opened = None
     if rng.random() < 0.3:
         # an existing project module is opened as a buffer (by absolute or by cwd-relative path)
@@ -694,9 +702,15 @@ class C08(base.Engine):
                     if o2.complete and o2.events and sort_result(o2.events[-1]['res']['probes'][0]) != sort_result(b):
                         stats['oracle_unstable'] += 1
                         continue
+                    try:
+                        ra = [json.dumps(x, sort_keys=True) for x in a] if not is_exc(a) else None
+                        rb = [json.dumps(x, sort_keys=True) for x in b] if not is_exc(b) else None
+                        subset = ra is not None and rb is not None and all(ra.count(x) >= rb.count(x) for x in rb)
+                    except Exception:
+                        subset = False
                     problems.append(('stale:%s' % p['m'], {'op': i, 'buf': op.get('buf'), 'probe': p,
                                                            'got': _short(a), 'oracle': _short(b),
-                                                           'cache': cache}))
+                                                           'cache': cache, 'oracle_subset_of_got': subset}))
         st = dict(stats)
         st['digest'] = driver.events_digest(run.events)
         st['branches'] = sorted(map(repr, branches))
